@@ -42,6 +42,7 @@ static int vi_printed;		/* ex_print() calls since the last command */
 static int vi_scroll;		/* scroll amount for ^f and ^d */
 static int vi_soset, vi_so;	/* search offset; 1 in "/kw/1" */
 static int vi_insert;		/* insert mode */
+static int vi_inleft;		/* insert mode left rows drawn at another xleft */
 static int w_cnt = 1;		/* window count */
 static int w_cur;		/* active window identifier */
 static int w_tmp;		/* temporary window */
@@ -903,9 +904,12 @@ static char *vi_help(char *ln)
 static char *vi_input(char *pref, char *post, int *row, int *off)
 {
 	char *rep;
+	int left = xleft;
 	vi_insert = 1;
 	rep = led_input(pref, post, &xleft, &xkmap, xhl ? ex_filetype() : "", vi_nextline, vi_help);
 	vi_insert = 0;
+	if (xleft != left)
+		vi_inleft = 1;
 	if (!rep)
 		return NULL;
 	*row = linecount(rep) - 1;
@@ -1805,6 +1809,9 @@ static void vi(void)
 		}
 		if (mod & VC_OK)
 			otop = xtop;
+		if (vi_inleft)		/* xleft may return to oleft below */
+			mod |= VC_WIN;
+		vi_inleft = 0;
 		vi_wfix();
 		if (mod)
 			xcol = vi_off2col(xb, xrow, xoff);
